@@ -13,7 +13,7 @@ open Aiorpcx.Py
 
 inductive ParamsK where | absent | list | dict | other
   deriving DecidableEq, Repr
-/-- `atom`: a number or a string (as the code stands `true`/`false` count as numbers, F7) -/
+/-- `atom`: a JSON number or a string (`true`/`false` are not numbers) -/
 inductive IdK where | absent | null | atom | other
   deriving DecidableEq, Repr
 inductive ResK where | absent | null | nonnull
@@ -57,7 +57,7 @@ def idK (kvs : List (Str × J)) : IdK :=
   match J.lookup kId kvs with
   | none => .absent
   | some .null => .null
-  | some (.bool _) | some (.int _) | some (.float _) | some (.str _) => .atom
+  | some (.int _) | some (.float _) | some (.str _) => .atom
   | some _ => .other
 
 def resK (kvs : List (Str × J)) : ResK :=
